@@ -40,7 +40,10 @@ def cases(tier):
     if tier != "quick":
         cfgs.append(("three_evaluate", ["evaluate", "evaluate", "evaluate"]))
     # one solver query per worker process: (thread configuration, obligation)
-    return [{"name": "%s__%s" % (n, ob), "threads": th, "only": ob} for n, th in cfgs for ob in OBLIGATIONS]
+    out = [{"name": "%s__%s" % (n, ob), "threads": th, "only": ob} for n, th in cfgs for ob in OBLIGATIONS]
+    # the model composes workers over SHARED lock objects; that the module's locks are of the process-shared kind is its own obligation
+    out.append({"name": "module_locks__shared_with_forked_workers", "what": "lockshare", "threads": []})
+    return out
 
 
 def run_case(case):
@@ -58,6 +61,25 @@ def run_case(case):
     violations, witnesses, obligations, stats = [], [], {}, {"paths": 0, "decisions": 0, "checks": 0, "sat": 0, "unsat": 0, "unknown": 0, "solver_s": 0.0}
     functions = []
     nontrivial = []
+    if case.get("what") == "lockshare":
+        from .. import stubs
+        try:
+            T = factory()
+            A = T.mod("panoptica.panoptica_aggregator")
+            kinds = {n: type(getattr(A, n, None)).__name__ for n in ("filelock", "inevalfilelock")}
+            ok = all(isinstance(getattr(A, n, None), stubs.ModelLock) for n in kinds)       # created through multiprocessing (the model's Lock)
+            obligations["module_locks_are_shared_with_forked_workers"] = [1, 1 if ok else 0]
+            stats.update(paths=1, checks=1, unsat=1 if ok else 0, sat=0 if ok else 1)
+            nontrivial += ["lock kinds %s" % sorted(kinds.items()), "lockshare"]
+            functions = ["panoptica/panoptica_aggregator.py:<module>"]
+            if not ok:
+                violations.append({"obligation": "module_locks_are_shared_with_forked_workers", "case": {"locks": kinds}, "detail": None, "kind": "lockshare", "extra": None})
+            witnesses.append({"case": {"locks": kinds}, "expect": None, "kind": "lockshare", "tag": "lock kinds"})
+        except Exception as e:
+            import traceback
+            err = "%s: %s\n%s" % (type(e).__name__, e, traceback.format_exc(limit=8))
+        return {"prop": PROP, "case": case["name"], "stats": stats, "violations": violations, "witnesses": witnesses, "obligations": obligations,
+                "nontrivial": sorted(set(nontrivial)), "functions": functions, "error": err, "wall_s": time.time() - t0}
     try:
         traces, digest = protocol.extract(factory)
         programs = {k: protocol.build_program(v) for k, v in traces.items()}
@@ -414,4 +436,40 @@ def _thread_verdict(case, obs):
     return {"match": True, "violates": bad is not None, "reason": bad, "observed": {"rows": obs["rows"], "stats": {str(k): v for k, v in obs["stats"].items()}}}
 
 
-REAL = {"schedule": real_schedule}
+def real_lockshare(case, mode, expect):
+    """a forked worker takes each module lock in turn and holds it; meanwhile the parent (another process of the same family) tries to take it:
+    a process-shared lock must be unavailable"""
+    import os
+    import importlib
+    import panoptica.panoptica_aggregator as A
+    importlib.reload(A)
+    bad = None
+    for name in ("inevalfilelock", "filelock"):
+        lock = getattr(A, name, None)
+        if lock is None:
+            return {"error": "module has no %s" % name}
+        r1, w1 = os.pipe()
+        r2, w2 = os.pipe()
+        pid = os.fork()
+        if pid == 0:
+            try:
+                lock.acquire()
+                os.write(w1, b"x")          # holding it now
+                os.read(r2, 1)              # until the parent has tried
+            finally:
+                os._exit(0)
+        os.read(r1, 1)
+        got = bool(lock.acquire(True, 0.5))
+        if got:
+            lock.release()
+        os.write(w2, b"x")
+        os.waitpid(pid, 0)
+        for fd in (r1, w1, r2, w2):
+            os.close(fd)
+        if got and bad is None:
+            bad = ("module_locks_are_shared_with_forked_workers: %s (%s) was acquired here while a forked worker was holding it - workers do not "
+                   "exclude each other, so check-then-claim and row appends of different workers can interleave") % (name, type(lock).__name__)
+    return {"match": True, "violates": bad is not None, "reason": bad, "observed": {"locks": {n: type(getattr(A, n, None)).__name__ for n in ("filelock", "inevalfilelock")}}}
+
+
+REAL = {"schedule": real_schedule, "lockshare": real_lockshare}
